@@ -358,14 +358,17 @@ def gen_seq_cases(rng, tier):
         seq("mixed-history", calls)
     # 10. long histories (bounded memories fill up and evict: more distinct arguments than a typical maxsize, each
     #     argument met again later, relatives of earlier arguments in between)
-    for _ in range(8 if big else 2):
-        base = [rand_short() for _ in range(150)]
+    sizes = [300, 300, 300, 300, 1100, 1100] if big else [300, 300]
+    for idx, size in enumerate(sizes):
+        o = ["from_str", "from_short"][idx % 2]      # the memory of ONE function is filled beyond 128 / 256 (1024) entries
+        base = [rand_short() for _ in range(size)]
         pool = list(base)
         for s in rng.sample(base, 40):
             pool.append(rng.choice(case_variants(s, rng, 1)))
             pool.append(rng.choice(decorated_variants(s, rng)))
-        calls = [(dec_op(), s) for s in base]
-        for _ in range(150):
+        calls = [(o, s) for s in base]
+        calls += [(o, s) for s in base[:30]]          # the oldest entries again, after they may have been evicted
+        for _ in range(100):
             r = rng.random()
             if r < 0.1:
                 v = rng.getrandbits(128)
@@ -373,7 +376,7 @@ def gen_seq_cases(rng, tier):
                 pool.append(enc57(v))
             else:
                 calls.append((dec_op(), rng.choice(pool)))
-        calls += [(dec_op(), s) for s in rng.sample(base, 30)]
+        calls += [(o, s) for s in rng.sample(base, 30)]
         seq("long-history", calls)
     return out
 
